@@ -124,34 +124,34 @@ Proof.
 Qed.
 
 (* ---- the theorem ---- *)
-Theorem text_round_trip_decoded m e t : NoDup (map fst (t_entries t)) -> clean_text t ->
+Theorem text_round_trip_decoded kf m e t : NoDup (map fst (t_entries t)) -> clean_text t ->
   file_bound (text_image Unicode e (encode_text t)) < 2 ^ 32 ->
-  exists f, TextFormat.serialize m Unicode e (encode_text t) = Ok f /\
+  exists f, TextFormat.serialize kf m Unicode e (encode_text t) = Ok f /\
     parse_text Unicode e f = Ok (Some {| t_title := t_title t; t_entries := t_entries t; t_dirty := false |}).
 Proof.
   intros Hnd Hc Hb.
-  destruct (text_round_trip_bytes_final m Unicode e (encode_text t) (encode_text_wf t Hnd Hc) (encode_text_wf_bytes e t Hc Hb))
+  destruct (text_round_trip_bytes_final kf m Unicode e (encode_text t) (encode_text_wf t Hnd Hc) (encode_text_wf_bytes e t Hc Hb))
     as (f & t' & Hs & Hp & Ht & He & Hd).
   exists f. split; [exact Hs|]. unfold parse_text. rewrite Hp. cbn [bind]. f_equal.
   cbn [decode_text_fmt]. unfold decode_text. rewrite He. cbn [encode_text t_entries]. rewrite (decode_encode_entries _ (proj2 Hc)). cbn [option_map].
   rewrite (Ht eq_refl), Hd. reflexivity.
 Qed.
 
-Theorem history_round_trip m e ops : Forall clean_op ops ->
+Theorem history_round_trip kf m e ops : Forall clean_op ops ->
   file_bound (text_image Unicode e (encode_text (tm_run ops))) < 2 ^ 32 ->
-  exists f, history_file m Unicode e ops = Ok f /\
+  exists f, history_file kf m Unicode e ops = Ok f /\
     parse_text Unicode e f = Ok (Some {| t_title := t_title (tm_run ops); t_entries := t_entries (tm_run ops); t_dirty := false |}).
 Proof.
   intros Hc Hb. unfold history_file. cbn [encode_text_fmt]. apply text_round_trip_decoded; [exact (run_nodup ops) | apply run_clean; exact Hc | exact Hb].
 Qed.
 
 (* every key of the parsed archive answers get_message as the in-memory archive did (lookup after the round trip) *)
-Corollary history_round_trip_lookup m e ops : Forall clean_op ops ->
+Corollary history_round_trip_lookup kf m e ops : Forall clean_op ops ->
   file_bound (text_image Unicode e (encode_text (tm_run ops))) < 2 ^ 32 ->
-  exists f t', history_file m Unicode e ops = Ok f /\ parse_text Unicode e f = Ok (Some t') /\
+  exists f t', history_file kf m Unicode e ops = Ok f /\ parse_text Unicode e f = Ok (Some t') /\
     tm_keys t' = tm_keys (tm_run ops) /\ forall k, tm_get t' k = tm_get (tm_run ops) k.
 Proof.
-  intros Hc Hb. destruct (history_round_trip m e ops Hc Hb) as (f & Hs & Hp).
+  intros Hc Hb. destruct (history_round_trip kf m e ops Hc Hb) as (f & Hs & Hp).
   eexists f, _. split; [exact Hs|]. split; [exact Hp|]. split; reflexivity.
 Qed.
 
@@ -167,13 +167,13 @@ Proof.
   eapply Forall_impl; [|exact He]. cbn beta. intros kv (Hk & Hm).
   destruct (ascii_wfb _ Hk) as [H1 H2]. destruct (ascii_wfb _ Hm) as [H3 _]. repeat split; assumption.
 Qed.
-Theorem history_round_trip_legacy m e ops : Forall ascii_op ops ->
+Theorem history_round_trip_legacy kf m e ops : Forall ascii_op ops ->
   file_bound (text_image ShiftJIS e (tm_run ops)) < 2 ^ 32 ->
-  exists f, history_file m ShiftJIS e ops = Ok f /\
+  exists f, history_file kf m ShiftJIS e ops = Ok f /\
     parse_text ShiftJIS e f = Ok (Some {| t_title := []; t_entries := t_entries (tm_run ops); t_dirty := false |}).
 Proof.
   intros Hc Hb. pose proof (run_ascii ops Hc) as Ha. unfold history_file. cbn [encode_text_fmt].
-  destruct (text_round_trip_bytes_final m ShiftJIS e (tm_run ops) (ascii_text_wf _ (run_nodup ops) Ha) (ascii_text_wf_bytes e _ Ha Hb))
+  destruct (text_round_trip_bytes_final kf m ShiftJIS e (tm_run ops) (ascii_text_wf _ (run_nodup ops) Ha) (ascii_text_wf_bytes e _ Ha Hb))
     as (f & t' & Hs & Hp & Ht & He & Hd).
   exists f. split; [exact Hs|]. unfold parse_text. rewrite Hp. cbn [bind decode_text_fmt]. f_equal. f_equal.
   assert (Htitle : t_title t' = []).
@@ -187,7 +187,7 @@ Qed.
 Example history_example :
   let ops := [TTitle [84]; TSet [107;49] [0x1F600; 92; 110; 97]; TSet [107;50] []; TDel [107;49]; TSet [107;49] [0xFEFF]] in
   Forall clean_op ops /\ file_bound (text_image Unicode BE (encode_text (tm_run ops))) < 2 ^ 32 /\
-  exists f, history_file Checked Unicode BE ops = Ok f /\
+  exists f, history_file key_bytes Checked Unicode BE ops = Ok f /\
     parse_text Unicode BE f = Ok (Some {| t_title := [84]; t_entries := [([107;50], []); ([107;49], [0xFEFF])]; t_dirty := false |}).
 Proof.
   cbn zeta. split; [|split].
